@@ -80,8 +80,11 @@ MustIssue(r) == /\ r.cred2 = NoCred /\ MayIssue(r)
 \* ---------------------------------------------------------------- tables
 \* (written as enumerable predicates, not as sets: TLC would spend minutes normalising a set of
 \* 60 000 nested records, while enumerating the same bound variables in Init is immediate)
-Case(cfg, c, c2, m, ct, t, s, o) ==
-    [cfg |-> cfg, cred |-> c, cred2 |-> c2, method |-> m, ctype |-> ct, target |-> t, sealed |-> s, origin |-> o]
+\* keyload: how much of the CA key material the (still sealed) server holds - "all" or nothing in the ordinary rows,
+\* "edonly" after an unseal attempt that loaded the Ed25519 CA key and then failed on the main key: sealed all the same
+CaseK(cfg, c, c2, m, ct, t, s, o, k) ==
+    [cfg |-> cfg, cred |-> c, cred2 |-> c2, method |-> m, ctype |-> ct, target |-> t, sealed |-> s, origin |-> o, keyload |-> k]
+Case(cfg, c, c2, m, ct, t, s, o) == CaseK(cfg, c, c2, m, ct, t, s, o, "all")
 
 TargetSelf(c) == IF c.user = None THEN "alice" ELSE c.user
 
@@ -101,6 +104,11 @@ InSweep(r) == \E cfg \in SweepCfgs, c \in SweepCreds, m \in {"POST", "GET", "PUT
                  s \in BOOLEAN, o \in {"none", "same", "cross"} :
                  r = Case(cfg, c, NoCred, m, ct, t, s, o)
 
+\* the half-loaded server: every credential of the sweep asks for every certificate type (ssh requests carry an Ed25519 key,
+\* the one key type the loaded half could sign)
+InHalf(r) == \E cfg \in SweepCfgs, c \in SweepCreds, ct \in CertTypes :
+                r = CaseK(cfg, c, NoCred, "POST", ct, TargetSelf(c), TRUE, "none", "edonly")
+
 \* two credentials in one request: certificate of one user + cookie of another (or the same)
 MixCfgs == {{"password"}, {"TOTP"}, {"U2F"}, {"TOTP", "password"}, {}}
 InMix(r) == \E cfg \in MixCfgs, cv \in {"good", "adminca"}, kv \in {"good", "expired"},
@@ -108,7 +116,7 @@ InMix(r) == \E cfg \in MixCfgs, cv \in {"good", "adminca"}, kv \in {"good", "exp
                r = Case(cfg, Cred("kmcert", cv, {}, "alice"), Cred("cookie", kv, fs, ku), "POST", "ssh", t, FALSE, "none")
 
 SevenFactors == {"pw", "fed", "u2f", "vip", "totp", "okta", "botp"}
-InTable(r) == \/ InBase(r, QuickFactorSets) \/ InSweep(r) \/ InMix(r)
+InTable(r) == \/ InBase(r, QuickFactorSets) \/ InSweep(r) \/ InMix(r) \/ InHalf(r)
               \/ (Table = "thorough" /\ InBase(r, SUBSET SevenFactors))
 \* ---------------------------------------------------------------- the behaviour spec
 VARIABLES req, resp        \* resp = [issued, subject]
